@@ -19,9 +19,10 @@ Proof.
   - apply andb_prop in H as [H Hk]. apply andb_prop in H as [H Hc]. rewrite H, (in_class_ref c Hc). cbn [andb].
     destruct k; try discriminate Hk; try exact Hk.
     apply andb_prop in Hk as [Hk _]. exact Hk.
-  - destruct ne as [ne|]; [discriminate H|].
-    apply andb_prop in H as [H Hb]. rewrite H, (in_class_ref b Hb). reflexivity.
-  - discriminate H.
+  - apply andb_prop in H as [H Hne]. apply andb_prop in H as [H Hb]. rewrite H, (in_class_ref b Hb). cbn [andb].
+    destruct ne as [ne|]; [exact (in_class_ref ne Hne)|reflexivity].
+  - destruct ig; [|discriminate H]. destruct fo; [discriminate H|].
+    apply andb_prop in H as [H Hn]. apply andb_prop in H as [H Hc]. rewrite H, (in_class_ref c Hc), Hn. reflexivity.
   - exact H.
 Qed.
 
